@@ -70,13 +70,22 @@ var c09Targets = []resetTarget{
 }
 
 // C09.reset — every field of the recycled types is reset by the reset method on every path.
-func c09Reset(e *Env) {
-	const rule = "C09.reset"
+func c09Reset(e *Env) { resetObligations(e, "C09.reset", nil) }
+
+// resetObligations runs the must-write analysis for the reset targets; keep (when non-nil)
+// restricts it to some (target, field) pairs — used by other properties that depend on one
+// particular reset (C19: the per-request trace statistics).
+func resetObligations(e *Env, rule string, keep func(tg resetTarget, field string) bool) {
 	w, r := e.W, e.R
-	r.Explainf("C09.reset: for each (type, reset method) of the property's list, go/ssa must-write analysis: a field counts as reset when on every non-panicking path of the method (following callees that receive the same object, and edges on which an explicit test shows the field already nil/empty are not followed) it is stored to, or its address / loaded value is handed to a reset-like callee, or the whole struct is overwritten. Obligation: fields(T) minus reset fields ⊆ reviewed exemption table (one reason per field).")
+	r.Explainf(rule+": for each (type, reset method) of the property's list, go/ssa must-write analysis: a field counts as reset when on every non-panicking path of the method (following callees that receive the same object, and edges on which an explicit test shows the field already nil/empty are not followed) it is stored to, or its address / loaded value is handed to a reset-like callee, or the whole struct is overwritten. Obligation: fields(T) minus reset fields ⊆ reviewed exemption table (one reason per field).")
 	fc := newFieldCov(w)
 	n := 0
+	nWant := 0
 	for _, tg := range c09Targets {
+		if keep != nil && !keep(tg, "") {
+			continue
+		}
+		nWant++
 		fi := w.Func(tg.Rel, tg.Typ, tg.Meth)
 		name := tg.Rel + "." + tg.Typ + "." + tg.Meth
 		if fi == nil {
@@ -97,6 +106,9 @@ func c09Reset(e *Env) {
 		r.Unit("%s: %s — %d fields, not reset on every path: %v", rule, name, st.NumFields(), miss)
 		for i := 0; i < st.NumFields(); i++ {
 			f := st.Field(i).Name()
+			if keep != nil && !keep(tg, f) {
+				continue
+			}
 			key := name + ":" + f
 			pos := w.Pos(st.Field(i).Pos())
 			desc := fmt.Sprintf("field %s.%s is reset by %s on every path", tg.Typ, f, tg.Meth)
@@ -115,7 +127,7 @@ func c09Reset(e *Env) {
 			}
 		}
 	}
-	r.Floor(rule, n, len(c09Targets), "reset methods analysed")
+	r.Floor(rule, n, nWant, "reset methods analysed")
 	var names []string
 	for _, t := range c09Targets {
 		names = append(names, t.Typ+"."+t.Meth)
